@@ -1757,6 +1757,25 @@ func c18GenExtra(tier string, rng *rand.Rand, emit func(interface{})) {
 	if tier == "thorough" {
 		fanSizes = append(fanSizes, 32769, 100000)
 	}
+	// DotString / labels far longer than the 40 bytes of c18GenDot: 300 and 5000 bytes, special bytes throughout
+	for it := 0; it < 12; it++ {
+		k := []int{300, 5000}[it%2]
+		str := make([]int, k)
+		for i := range str {
+			switch rng.Intn(4) {
+			case 0:
+				str[i] = []int{'\\', '"', '\n', '{', '}', '<', '>', '|', '\r', 0, 255, 128}[rng.Intn(12)]
+			case 1:
+				str[i] = rng.Intn(256)
+			default:
+				str[i] = 32 + rng.Intn(95)
+			}
+		}
+		emit(c18Case{Op: 9, S: str})
+		if it < 4 {
+			emit(c18Case{Op: 10, G: [][]int{{1, 1}, {0}}, Name: str[:100], HasL: true, Labels: [][]int{str, str[:k/2]}})
+		}
+	}
 	for _, n := range fanSizes {
 		for relabel := 0; relabel < 3; relabel++ {
 			g := c18Fan(rng, n, relabel)
